@@ -570,6 +570,8 @@ func c14Concurrency(c *Ctx, inputs []c14Input, seqOut [][]string, _ string) {
 			}(g)
 		}
 		wg2.Wait()
+		c.StatN("concurrent-distinct-text-parses", 8*c.Pick(400, 4000)*2)
+		c.Count("concurrency-distinct-texts", true)
 	}
 	c.StatN("concurrent-parses", len(idx)*8)
 	c.Count("concurrency", true)
